@@ -86,7 +86,13 @@ func GetExtendedSpatialIdsWithinRadiusOfLine(startPoint *object.Point, endPoint 
 
 	// Determine the number of layers around the spatialID to search.
 	// All SpatialIds are virtually the same size, so use the first to measure
-	hLayers, vLayers, error := FitClearanceAroundExtendedSpatialID(idsOnLine[0], radius)
+	// idsOnLine is de-duplicated through a map, so its order (and idsOnLine[0]) differs from run to run;
+	// size the search box from the voxel of the start point so that the result is deterministic
+	idsOnStart, error := shape.GetExtendedSpatialIdsOnPoints([]*object.Point{startPoint}, hZoom, vZoom)
+	if error != nil {
+		return nil, error
+	}
+	hLayers, vLayers, error := FitClearanceAroundExtendedSpatialID(idsOnStart[0], radius)
 	if error != nil {
 		return nil, error
 	}
